@@ -28,7 +28,9 @@ ENCODED = [("traits/ctraits.c", ["has_traits_setattro", "setattr_trait", "call_n
                                  "raise_trait_error", "validate_trait_python", "post_setattr_trait_python"] + c03.ENCODED[0][1]),
            ("traits/trait_types.py", ["BaseRange.int_validate", "BaseRange.float_validate", "String.validate_len",
                                       "String.validate_str", "Union.validate", "Type.validate", "Map.post_setattr"] + c03.ENCODED[1][1]),
-           ("traits/base_trait_handler.py", ["BaseTraitHandler.error"])]
+           ("traits/base_trait_handler.py", ["BaseTraitHandler.error"]),
+           ("traits/trait_numeric.py", ["AbstractArray.__init__", "AbstractArray.validate"]),
+           ("traits/trait_handlers.py", ["TraitCoerceType.validate"])]
 EXPLANATION = ("Symbolic execution of the real assignment path (C interpreted from the AST, Python validators natively) on a real "
                "HasTraits object; numeric payloads, Range bounds, String length bounds are z3 Ints / Float64s. Per path z3 "
                "discharges: stored value == documented conversion and inside the declared domain; rejection is a TraitError "
